@@ -129,3 +129,34 @@ func init() {
 			}}
 	})
 }
+
+func init() {
+	// A leader whose main loop hangs in a store write (slow disk: the "stall" answer of a StoreLogs, one deviation)
+	// while it is cut off, is superseded, is asked to VerifyLeader and is reconnected: its replication and heartbeat
+	// threads keep running and meet the new term long before the main loop can step down.
+	regScenario("stall-deposed3", func() *Scenario {
+		ns := append(voters(3), NodeSpec{Suffrage: raft.Voter, StartUp: true})
+		return &Scenario{Nodes: ns, Devs: DevStore | DevSelect, Horizon: 900, Liveness: true, AutoRestart: true,
+			Goal: func(w *World) bool { return w.scriptDone() && w.converged() },
+			Steps: []Step{
+				stepApplyLeader("apply1"),
+				stepDo("isolate-leader+apply", whenSettled, func(w *World) {
+					l := w.leader()
+					w.vals["old"] = l.id
+					w.isolate(l.id, true)
+					w.apply(l, 0)
+					w.addVoter(l, 3, 0) // (its replication to the new server starts when the entry has been stored)
+				}),
+				stepDo("verify-on-old-leader", func(w *World) bool {
+					l := w.stableLeader()
+					return l != nil && l.id != w.vals["old"] && w.netIdle()
+				}, func(w *World) {
+					if o := w.nodes[w.vals["old"]]; o.up && o.r != nil {
+						w.verify(o)
+					}
+				}),
+				stepDo("heal", func(w *World) bool { return w.netIdle() }, func(w *World) { w.isolate(w.vals["old"], false) }),
+				stepDo("apply-final", whenSettled, func(w *World) { w.apply(w.leader(), 0) }),
+			}}
+	})
+}
